@@ -16,6 +16,7 @@
 //  13 T                           processTransaction
 //  14 U b                         setTransactionUse
 //  15 E conn end k a b            change a connector end
+//  16 L n s1 c1 .. s5 c5         hyperedgeRerouter()->registerHyperedgeForRerouting(terminal list of n <= 5 shape pins; unused slots 0)
 // Every execution is logged as ndjson: Reset, one line per op (with the live-object projection after each
 // processing point), End.  A crash / sanitizer report / failed assertion truncates the execution.
 #include "vtrace.h"
@@ -113,7 +114,7 @@ static void emitOp(const std::vector<int> &o, World *w, bool processed, const ch
 
 static int opLen(int t)
 {
-    static const int n[] = {0, 5, 8, 3, 7, 6, 3, 5, 1, 1, 1, 3, 1, 0, 1, 5};
+    static const int n[] = {0, 5, 8, 3, 7, 6, 3, 5, 1, 1, 1, 3, 1, 0, 1, 5, 11};
     return n[t];
 }
 
@@ -151,6 +152,8 @@ static void runScenario(int mode, int opts, const std::vector<std::vector<int> >
             case 10: w.router->deleteJunction(w.juncs.at(o[1])); w.juncs.erase(o[1]); processed = !w.txn; break;
             case 11: w.router->moveJunction(w.juncs.at(o[1]), o[2], o[3]); processed = !w.txn; break;
             case 12: w.router->hyperedgeRerouter()->registerHyperedgeForRerouting(w.juncs.at(o[1])); break;
+            case 16: { ConnEndList terms; for (int q = 0; q < o[1] && q < 5; q++) terms.push_back(ConnEnd(w.shapes.at(o[2 + 2 * q]), (unsigned)o[3 + 2 * q]));
+                       w.router->hyperedgeRerouter()->registerHyperedgeForRerouting(terms); break; }
             case 13: w.router->processTransaction(); processed = true; break;
             case 14: w.txn = o[1] != 0; w.router->setTransactionUse(w.txn); break;
             case 15: if (o[2] == 0) w.conns.at(o[1])->setSourceEndpoint(mkEnd(w, o[3], o[4], o[5])); else w.conns.at(o[1])->setDestEndpoint(mkEnd(w, o[3], o[4], o[5]));
